@@ -6,6 +6,7 @@
   Engine and per-line lemmas are in `ScriptLemmas.lean`.
 -/
 import YashModel.Quote.ScriptLemmas
+import YashModel.Quote.StateLemmas
 namespace YashModel.Quote
 open YashModel.Generated.QuoteTables
 open Listing
@@ -203,5 +204,107 @@ example : evalScript ("x".toList ++ ['='] ++ quote "a b\n~".toList ++ ['\n'])
     = some [Effect.assign "x".toList (.scalar "a b\n~".toList)] := by
   have := set_listing_text_recreates [("x".toList, "a b\n~".toList)] (by decide)
   simpa using this
+
+/-! ## Wave 3: portable names, array lines, whole states -/
+
+/-- ★ every portable name (`is_name`: ASCII letters, digits, `_`, not starting with a digit) is printed bare by
+    the quoter — over the generated tables (`char_needs_quoting` arms, first-character arms, `:~`, bracket
+    pairs, White_Space ranges).  `set` prints the names of the variables it lists UNQUOTED; this is why that is
+    sound, and it removes the hypothesis of `set_listing_text_recreates` for every name `set` lists. -/
+theorem portable_names_bare (n : List Char) (h : isName n = true) :
+    strNeedsQuoting n = false ∧ quote n = n :=
+  ⟨isName_bare n h, quote_bare (isName_bare n h)⟩
+
+/-- ★ (composition, arrays) the line `name=(v1 v2 …)` that `print_one` / `set` print for an array — name printed
+    bare, ANY values (blanks, newlines, quotes, `)`, `#`, reserved words), followed by ANY text — is read as ONE
+    assignment command: `(` glued to the `=` opens `array_values`, every quoted value is one element, the `)`
+    closes it, the newline ends the command, and the rest of the text is read independently. -/
+theorem array_line_then_text (n : List Char) (vs : List (List Char)) (rest : List Char)
+    (hn : strNeedsQuoting n = false) :
+    evalScript (quote n ++ ['='] ++ quoteArray vs ++ ['\n'] ++ rest)
+      = (evalScript rest).map ([Effect.assign n (.array vs)] ++ ·) := by
+  have := array_line_effects n vs rest hn
+  rw [quote_bare hn]
+  simpa only [List.append_assoc, List.cons_append, List.nil_append] using this
+
+/-- ★ whole text, ANY list of variables printed by `print_one` (`typeset -p`): scalars, valueless variables,
+    arrays (assignment line + attribute line when `-r`/`-x` apply), names containing `=` (skipped by the
+    printer) — provided the arrays have names that are printed bare. -/
+theorem typeset_any_listing_text_recreates (vars : List Var)
+    (h : ∀ v ∈ vars, ∀ vs, v.value = .array vs → strNeedsQuoting v.name = false) :
+    evalScript ((vars.map (printVar "typeset" typesetOpts false)).flatten)
+      = some (vars.flatMap fun v => varEffects "typeset" (!(typesetOpts v).isEmpty || false) v v) :=
+  printVars_effects "typeset" (by decide) typesetOpts false id (fun _ => rfl) (fun _ => rfl) vars h
+
+/-- ★ whole text, `set`, STATE level, no hypothesis: for EVERY state, the text `set` prints (variables with a
+    portable name and a value, sorted; scalars and arrays) evaluates to exactly the assignments that recreate
+    them — exactly what the driver's Spec column evaluates per case (`textVerdict`, `St`). -/
+theorem set_state_listing_text_recreates (s : State) : evalScript (listSet s) = some (expectedSet s) := by
+  rw [expectedSet_eq]
+  unfold listSet
+  apply printSets_effects
+  intro v hv
+  have := (mem_sortBy _ _ v).mp hv
+  simpa using (List.mem_filter.mp this).2
+
+/-- ★ whole text, `typeset -p`, STATE level: for EVERY state whose arrays have names printed bare
+    (`arraysBare`; all identifiers are, `portable_names_bare`), the text of the listing (sorted, names with `=`
+    skipped, arrays as assignment + attribute line) evaluates to exactly `expectedTypeset` (`Vt` of the Spec
+    column).  The hypothesis is needed: see `array_quoted_name_rejected`. -/
+theorem typeset_state_listing_text_recreates (s : State) (h : arraysBare s = true) :
+    evalScript (listTypeset s) = some (expectedTypeset s) := by
+  rw [expectedTypeset_eq]
+  unfold listTypeset
+  exact printVars_effects "typeset" (by decide) typesetOpts false id (fun _ => rfl) (fun _ => rfl) _
+    (fun v hv => arraysBare_spec s h v ((mem_sortBy _ _ v).mp hv))
+
+/-- ★ whole text, `export -p`, STATE level (`Xt`) -/
+theorem export_state_listing_text_recreates (s : State) (h : arraysBare s = true) :
+    evalScript (listExport s) = some (expectedExport s) := by
+  unfold expectedExport
+  rw [expectedAttr_eq "export" (Or.inl rfl)]
+  unfold listExport
+  exact printVars_effects "export" (by decide) (fun _ => []) true
+    (fun v => { v with exported := false, readonly := false }) (fun v => (typesetOpts_plain v).symm) (fun _ => rfl) _
+    (fun v hv => arraysBare_spec s h v (List.mem_filter.mp ((mem_sortBy _ _ v).mp hv)).1)
+
+/-- ★ whole text, `readonly -p`, STATE level (`Rt`) -/
+theorem readonly_state_listing_text_recreates (s : State) (h : arraysBare s = true) :
+    evalScript (listReadonly s) = some (expectedReadonly s) := by
+  unfold expectedReadonly
+  rw [expectedAttr_eq "readonly" (Or.inr rfl)]
+  unfold listReadonly
+  exact printVars_effects "readonly" (by decide) (fun _ => []) true
+    (fun v => { v with exported := false, readonly := false }) (fun v => (typesetOpts_plain v).symm) (fun _ => rfl) _
+    (fun v hv => arraysBare_spec s h v (List.mem_filter.mp ((mem_sortBy _ _ v).mp hv)).1)
+
+/-- ★ converse of `array_line_then_text` — the side condition is EXACT: when the quoter quotes the name (`a*`,
+    `a:~`, `{a}`, `a[]` — all of them names the parser accepts in `NAME=(…)`), the line `print_one` prints for the
+    array, `'a*'=(1 2)`, is not an assignment and the whole listing does not evaluate, whatever follows.  This is
+    finding 6 (reproduced on the real shell: `a*=(1 2); typeset -p`), for every such name. -/
+theorem array_quoted_name_rejected (n : List Char) (vs : List (List Char)) (rest : List Char)
+    (hn : strNeedsQuoting n = true) :
+    evalScript (quote n ++ ['='] ++ quoteArray vs ++ ['\n'] ++ rest) = none := by
+  have := quoted_name_array_rejected n hn (joinSp (vs.map quote) ++ [')'] ++ ['\n'] ++ rest)
+  simpa only [quoteArray, List.append_assoc, List.cons_append, List.nil_append] using this
+example : printVar "typeset" typesetOpts false
+      { name := "a*".toList, value := .array ["1".toList, "2".toList], exported := false, readonly := false }
+    = "'a*'=(1 2)\n".toList := by decide
+example : strNeedsQuoting "a*".toList = true := by decide
+
+/-- a state built by the definition commands: array `a.b` (exported), scalar `-x` with a newline in the value, a
+    valueless read-only variable, a variable whose name contains `=` -/
+def demoState : State :=
+  ((((({} : State).setArray "a.b".toList ["x y".toList, "if".toList, ")".toList] true false).setScalar
+    "-x".toList "1\n#2".toList false false).declare "r".toList false true).setScalar "p=q".toList "v".toList false false)
+
+example : arraysBare demoState = true := by decide
+example : listTypeset demoState
+    = "typeset -- -x='1\n#2'\na.b=('x y' if ')')\ntypeset -x a.b\ntypeset -r r\n".toList := by decide
+example : evalScript (listTypeset demoState) = some (expectedTypeset demoState) :=
+  typeset_state_listing_text_recreates demoState (by decide)
+example : (expectedTypeset demoState).length = 4 := by decide
+example : isName "a_1".toList = true := by decide
+example : strNeedsQuoting "a.b".toList = false := by decide
 
 end YashModel.Quote
